@@ -73,7 +73,7 @@ Section WithEC.
   (* The mathematical premise about secp256k1: for a fully valid uncompressed key, decompressing
      its compressed form gives the key back. *)
   Hypothesis ec_decompress_compress : forall pk c,
-    length pk = 65%nat -> nth_error pk 0 = Some 4%N -> ec_fully_valid pk = true ->
+    bytes_ok pk -> length pk = 65%nat -> nth_error pk 0 = Some 4%N -> ec_fully_valid pk = true ->
     ec_compress_pub pk = Some c -> ec_decompress c = Some pk.
 
   Notation is_to_pubkey := (is_to_pubkey ec_fully_valid).
@@ -135,12 +135,12 @@ Section WithEC.
 
   (* what the compressor emits is a tag below 6 followed by exactly the special size for that tag,
      and the decompressor maps it back to the script *)
-  Lemma compress_script_inv s c : compress_script s = Some c ->
+  Lemma compress_script_inv s c : bytes_ok s -> compress_script s = Some c ->
     exists tag payload, c = tag :: payload /\ (tag < 6)%N /\
       length payload = special_script_size (Z.of_N tag) /\
       decompress_script (Z.of_N tag) payload = Some s.
   Proof.
-    unfold Compress.compress_script.
+    intros Hbs. unfold Compress.compress_script.
     destruct (is_to_key_id s) as [h|] eqn:K.
     { intros H. inversion H; subst c. clear H. apply is_to_key_id_inv in K. destruct K as [Es L].
       exists 0%N, h. split; [reflexivity|]. split; [reflexivity|]. split; [exact L|].
@@ -177,7 +177,8 @@ Section WithEC.
       cbn [skipn].
       assert (LX : length (firstn 32 pk') = 32%nat) by (rewrite firstn_length; lia).
       assert (EC : ec_decompress (N.lor 2 (N.land y 1) :: firstn 32 pk') = Some (4%N :: pk')).
-      { apply ec_decompress_compress; [exact L | reflexivity | exact V |].
+      { apply ec_decompress_compress; [| exact L | reflexivity | exact V |].
+        { rewrite Es in Hbs. apply bytes_ok_app in Hbs. destruct Hbs as [_ Hbs]. apply bytes_ok_app in Hbs. tauto. }
         unfold ec_compress_pub. rewrite NY. reflexivity. }
       destruct (land1_cases y) as [E|E]; rewrite E in *.
       + exists 4%N, (firstn 32 pk'). split; [reflexivity|]. split; [reflexivity|]. split; [exact LX|].
@@ -207,13 +208,13 @@ Section WithEC.
 
   (* SCRIPT ROUND TRIP: every script up to MAX_SCRIPT_SIZE bytes is read back unchanged, whatever
      follows it in the stream and whatever the CScript object held before *)
-  Lemma script_roundtrip s prev rest : (Z.of_nat (length s) <= MAX_SCRIPT_SIZE) ->
+  Lemma script_roundtrip s prev rest : bytes_ok s -> (Z.of_nat (length s) <= MAX_SCRIPT_SIZE) ->
     exists enc, ser_script s = Some enc /\ unser_script prev (enc ++ rest) = Ok s rest.
   Proof.
-    rewrite max_script_size_is_10000. intros L. unfold Compress.ser_script.
+    rewrite max_script_size_is_10000. intros Hbs L. unfold Compress.ser_script.
     destruct (compress_script s) as [c|] eqn:C.
     - exists c. split; [reflexivity|].
-      apply compress_script_inv in C. destruct C as [tag [payload [-> [Ht [Lp D]]]]].
+      apply compress_script_inv in C; [|exact Hbs]. destruct C as [tag [payload [-> [Ht [Lp D]]]]].
       unfold Compress.unser_script. cbn [app].
       rewrite read_varint_small by lia. cbn [bind].
       rewrite n_special_is_6. assert (E : (Z.of_N tag <? 6) = true) by lia. rewrite E.
@@ -257,15 +258,15 @@ Section WithEC.
   Qed.
 
   (* TXOUT *)
-  Lemma txout_roundtrip v s prev rest : 0 <= v <= AMOUNT_ROUNDTRIP_MAX ->
+  Lemma txout_roundtrip v s prev rest : 0 <= v <= AMOUNT_ROUNDTRIP_MAX -> bytes_ok s ->
     Z.of_nat (length s) <= MAX_SCRIPT_SIZE ->
     exists enc, ser_txout v s = Some enc /\ unser_txout prev (enc ++ rest) = Ok (v, s) rest.
   Proof.
-    intros Hv Hs. unfold Compress.ser_txout.
+    intros Hv Hbs Hs. unfold Compress.ser_txout.
     assert (Hv64 : 0 <= v <= UINT64_MAX) by (unfold AMOUNT_ROUNDTRIP_MAX, UINT64_MAX in *; lia).
     rewrite wrapu64_id by exact Hv64.
     destruct (varint_total 64 (compress_amount v) w64) as [a Ha]. rewrite Ha.
-    destruct (script_roundtrip s prev rest Hs) as [b [Hb Hb2]]. rewrite Hb.
+    destruct (script_roundtrip s prev rest Hbs Hs) as [b [Hb Hb2]]. rewrite Hb.
     exists (a ++ b). split; [reflexivity|].
     unfold Compress.unser_txout. rewrite <- app_assoc.
     pose proof (compress_amount_range v) as Hr.
@@ -300,11 +301,11 @@ Section WithEC.
 
   (* COIN ROUND TRIP (UTXO database record) *)
   Lemma coin_roundtrip c prev rest :
-    0 <= c_height c < 2 ^ 31 -> 0 <= c_value c <= AMOUNT_ROUNDTRIP_MAX ->
+    0 <= c_height c < 2 ^ 31 -> 0 <= c_value c <= AMOUNT_ROUNDTRIP_MAX -> bytes_ok (c_script c) ->
     Z.of_nat (length (c_script c)) <= MAX_SCRIPT_SIZE ->
     exists enc, ser_coin c = Some enc /\ unser_coin prev (enc ++ rest) = Ok c rest.
   Proof.
-    intros Hh Hv Hs. unfold Compress.ser_coin.
+    intros Hh Hv Hbs Hs. unfold Compress.ser_coin.
     assert (E : (c_value c =? -1) = false) by lia. rewrite E.
     rewrite coin_code_value by exact Hh.
     set (code := 2 * c_height c + (if c_coinbase c then 1 else 0)).
@@ -312,7 +313,7 @@ Section WithEC.
     { unfold code. change (2 ^ 31) with 2147483648 in Hh. change (2 ^ 32 - 1) with 4294967295.
       destruct (c_coinbase c); lia. }
     destruct (varint_total 32 code w32) as [a Ha]. rewrite Ha.
-    destruct (txout_roundtrip (c_value c) (c_script c) prev rest Hv Hs) as [b [Hb Hb2]]. rewrite Hb.
+    destruct (txout_roundtrip (c_value c) (c_script c) prev rest Hv Hbs Hs) as [b [Hb Hb2]]. rewrite Hb.
     exists (a ++ b). split; [reflexivity|].
     unfold Compress.unser_coin. rewrite <- app_assoc.
     rewrite (varint_rt 32 code a (b ++ rest) w32 Hcode Ha). cbn [bind].
@@ -323,18 +324,18 @@ Section WithEC.
 
   (* UNDO RECORD ROUND TRIP (TxInUndoFormatter) *)
   Lemma undo_roundtrip c prev rest :
-    0 <= c_height c < 2 ^ 31 -> 0 <= c_value c <= AMOUNT_ROUNDTRIP_MAX ->
+    0 <= c_height c < 2 ^ 31 -> 0 <= c_value c <= AMOUNT_ROUNDTRIP_MAX -> bytes_ok (c_script c) ->
     Z.of_nat (length (c_script c)) <= MAX_SCRIPT_SIZE ->
     exists enc, ser_undo c = Some enc /\ unser_undo prev (enc ++ rest) = Ok c rest.
   Proof.
-    intros Hh Hv Hs. unfold Compress.ser_undo.
+    intros Hh Hv Hbs Hs. unfold Compress.ser_undo.
     rewrite coin_code_value by exact Hh.
     set (code := 2 * c_height c + (if c_coinbase c then 1 else 0)).
     assert (Hcode : 0 <= code <= 2 ^ 32 - 1).
     { unfold code. change (2 ^ 31) with 2147483648 in Hh. change (2 ^ 32 - 1) with 4294967295.
       destruct (c_coinbase c); lia. }
     destruct (varint_total 32 code w32) as [a Ha]. rewrite Ha.
-    destruct (txout_roundtrip (c_value c) (c_script c) prev rest Hv Hs) as [b [Hb Hb2]]. rewrite Hb.
+    destruct (txout_roundtrip (c_value c) (c_script c) prev rest Hv Hbs Hs) as [b [Hb Hb2]]. rewrite Hb.
     eexists. split; [reflexivity|].
     unfold Compress.unser_undo. rewrite <- !app_assoc.
     rewrite (varint_rt 32 code a _ w32 Hcode Ha). cbn [bind].
